@@ -40,3 +40,68 @@ func Harness_C19_ChecksumCoversEveryField() {
 	zzsym.Assert(!sameState || sameView, "the checksum view is not a function of the persisted fields")
 	zzsym.Observe("same", zzsym.B2U(sameView), zzsym.B2U(sameState))
 }
+
+// c19Sections: a state with EVERY optional section of the file populated (health report, hash-slot
+// range, task, scheduled-backup section, MCP section with one credential), one symbolic scalar each.
+func c19Sections(p string) ClusterState {
+	st := c19State(p)
+	st.NodeHealthReports = []NodeHealthReport{{NodeID: zzsym.U64(p + ".health.node"), ObservedControlRevision: zzsym.U64(p + ".health.rev")}}
+	st.HashSlots = HashSlotTable{Version: zzsym.U32(p + ".hs.version"), SlotCount: zzsym.U16(p + ".hs.count"),
+		Ranges: []HashSlotRange{{From: zzsym.U16(p + ".hs.from"), To: zzsym.U16(p + ".hs.to"), SlotID: zzsym.U32(p + ".hs.slot")}}}
+	st.Tasks = []ReconcileTask{{TaskID: zzsym.String(p+".task.id", 1), SlotID: zzsym.U32(p + ".task.slot"), TargetNode: zzsym.U64(p + ".task.target")}}
+	if zzsym.Bool(p + ".backup.present") {
+		st.ScheduledBackup = &ScheduledBackupState{Revision: zzsym.U64(p + ".backup.rev"), ManagerSessionEpoch: zzsym.U64(p + ".backup.epoch")}
+	}
+	if zzsym.Bool(p + ".mcp.present") {
+		st.OpsMCP = &OpsMCPState{Enabled: zzsym.Bool(p + ".mcp.enabled"), OwnerNodeID: zzsym.U64(p + ".mcp.owner"),
+			Credentials: []OpsMCPCredential{{ID: zzsym.String(p+".mcp.cred", 1), DigestSHA256: zzsym.String(p+".mcp.digest", 1), CreatedAtUnixMillis: zzsym.I64(p + ".mcp.created")}}}
+	}
+	return st
+}
+
+// Harness_C19_ChecksumCoversEverySection: the view the checksum is computed over carries every
+// section of the state - health reports, hash-slot table, tasks, the scheduled-backup section and
+// the MCP section (presence and content) - so that a change confined to any one of them cannot
+// keep the checksum: equal views imply equal sections.
+func Harness_C19_ChecksumCoversEverySection() {
+	a, b := c19Sections("a"), c19Sections("b")
+	va, vb := checksumView(a), checksumView(b)
+	secEq := func(x, y ClusterState) bool {
+		if len(x.NodeHealthReports) != 1 || len(y.NodeHealthReports) != 1 || x.NodeHealthReports[0] != y.NodeHealthReports[0] {
+			return false
+		}
+		if x.HashSlots.Version != y.HashSlots.Version || x.HashSlots.SlotCount != y.HashSlots.SlotCount ||
+			len(x.HashSlots.Ranges) != 1 || len(y.HashSlots.Ranges) != 1 || x.HashSlots.Ranges[0] != y.HashSlots.Ranges[0] {
+			return false
+		}
+		if len(x.Tasks) != 1 || len(y.Tasks) != 1 || x.Tasks[0].TaskID != y.Tasks[0].TaskID || x.Tasks[0].SlotID != y.Tasks[0].SlotID || x.Tasks[0].TargetNode != y.Tasks[0].TargetNode {
+			return false
+		}
+		if (x.ScheduledBackup == nil) != (y.ScheduledBackup == nil) {
+			return false
+		}
+		if x.ScheduledBackup != nil && (x.ScheduledBackup.Revision != y.ScheduledBackup.Revision || x.ScheduledBackup.ManagerSessionEpoch != y.ScheduledBackup.ManagerSessionEpoch) {
+			return false
+		}
+		if (x.OpsMCP == nil) != (y.OpsMCP == nil) {
+			return false
+		}
+		if x.OpsMCP != nil {
+			if x.OpsMCP.Enabled != y.OpsMCP.Enabled || x.OpsMCP.OwnerNodeID != y.OpsMCP.OwnerNodeID ||
+				len(x.OpsMCP.Credentials) != 1 || len(y.OpsMCP.Credentials) != 1 || x.OpsMCP.Credentials[0] != y.OpsMCP.Credentials[0] {
+				return false
+			}
+		}
+		return true
+	}
+	viewState := func(v checksumClusterState) ClusterState {
+		return ClusterState{NodeHealthReports: v.NodeHealthReports, HashSlots: v.HashSlots, Tasks: v.Tasks, ScheduledBackup: v.ScheduledBackup, OpsMCP: v.OpsMCP}
+	}
+	sameView := secEq(viewState(va), viewState(vb))
+	sameState := secEq(a, b)
+	zzsym.Reach("sections-compared")
+	zzsym.Assert(!sameView || sameState, "two states that differ in an optional section (health reports, hash slots, tasks, scheduled backup, MCP) have the same checksum view")
+	zzsym.Assert(!sameState || sameView, "the checksum view is not a function of the optional sections")
+	// each section of the view is the state's own section, not a default
+	zzsym.Assert(secEq(viewState(va), a), "the checksum view drops or replaces a section of the state")
+}
